@@ -243,7 +243,7 @@ def run_scenario(sx, proto, transport, user_headers=False):
     elif stage == 'fn_fault':
         BEHAVE['fn'] = 'fault'
     elif stage == 'fn_fault_detail':
-        BEHAVE.update(fn='fault', detail={'first': {'k': 'v'}, 'second': 'w'}, code='Server.Custom')
+        BEHAVE.update(fn='fault', detail={'first': {'k': 'v', 'zero': 0, 'no': False}, 'second': 'w'}, code='Server.Custom')
     elif stage == 'fn_exc':
         BEHAVE['fn'] = 'exc'
     elif stage == 'unserializable':
